@@ -979,6 +979,32 @@ def solver_streams(ctx, operators, solvers, rng):
                         nres_bad += 1
                     ctx.violation(key, 'make_solver(%s matrix%s) on a well-conditioned symmetric %s matrix (cond_inf %.3g) raised %s: %s' % (
                         fmt, ', symmetric=True' if kw else '', 'positive definite' if definite else 'indefinite', cond, type(ex).__name__, str(ex)[:100]), replay, True)
+    # many right-hand sides at once (more than 4096 columns, not a multiple of 4096): every column must be solved
+    for _ in range(3 if quick else 20):
+        d = int(rng.integers(2, 6))
+        while True:
+            B = rint(rng, (d, d)) + 4 * np.eye(d) if rng.integers(0, 2) else spd_int(rng, d)
+            nn = exact_inv_norms(B)
+            if nn is not None:
+                break
+        ncol = int(rng.integers(4097, 9001))
+        X = rint(rng, (d, ncol))
+        k = str(rng.choice(['r', 'c', 'd']))
+        kw = {'spd': True} if (np.array_equal(B, B.T) and np.all(np.linalg.eigvalsh(B) > 0) and rng.integers(0, 2)) else {}
+        ctx.case(('manyrhs', k, B.tobytes(), ncol)); ctx.count('stream=make_solver many right-hand sides'); ctx.count('many-rhs kind=' + k)
+        replay = {'B': B.tolist(), 'kind': k, 'kwargs': kw, 'columns': ncol, 'rhs': 'rng integers in [-3,3], shape (%d,%d)' % (d, ncol)}
+        try:
+            Y = np.asarray(operators.make_solver(mk(k, B), **kw).dot(X))
+            bound = 64.0 * d * eps * nn[0] * nn[1] * 3.0 * nn[0]
+            colres = np.abs(B @ Y - X).max(0) if Y.shape == X.shape else np.array([np.inf])
+            badc = np.nonzero(~(colres <= bound))[0]
+            if len(badc):
+                nres_bad += 1
+                ctx.violation('solver-many-rhs', 'make_solver(%s).dot(X) with %d right-hand sides: %d columns are not solved (first bad column %d, residual %g, bound %g)' % (
+                    {'r': 'csr', 'c': 'csc', 'd': 'dense'}[k], ncol, len(badc), int(badc[0]), float(np.nan_to_num(colres[badc[0]], nan=np.inf)), bound), replay, True)
+        except Exception as ex:
+            nres_bad += 1
+            ctx.violation('solver-many-rhs', 'make_solver(...).dot(X) with %d right-hand sides raised %s: %s' % (ncol, type(ex).__name__, str(ex)[:120]), replay, True)
     # fastdiag_solver
     from pyiga import bspline, assemble
     import scipy.linalg
